@@ -61,7 +61,7 @@ def event_times(desc):
 
 def expected_invocations(desc, T):
     """Periods in which the scheduler must run (C05 model)."""
-    mr = desc["scheduler"].get("mr") if desc["scheduler"]["kind"] == "scripted" else 1
+    mr = desc["scheduler"].get("mr") if desc["scheduler"]["kind"] == "scripted" else (desc["scheduler"].get("mr") or 1)
     evt = event_times(desc)
     out, last = [], None
     for t in range(T):
